@@ -308,7 +308,9 @@ def judge(specs, report):
     # the same run as `annet gen --annotate` makes it: the notes aside, nothing may change
     if len(specs) <= 2:
         noted = run_real([(p, indent_text(refacl.text(r), BASE_INDENT.get(a, 8)) + "\n") for (p, r), (_, a) in zip(rs, specs)], annotate=True)
-        if noted[0] != real[0] or (real[0] == "ok" and noted[1] != real[1]):
+        # (with notes two yields of one row are two different rows until the notes are taken off, so the ORDER in which
+        #  merged rows come out may differ from the plain run; what must agree is which rows stand under which path)
+        if noted[0] != real[0] or (real[0] == "ok" and unordered_tree(noted[1]) != unordered_tree(real[1])):
             report({"kind": "annotate-changes-result", "n_gens": len(specs)}, case, "plain=%r with --annotate=%r" % (real, noted))
     return real, ref
 
@@ -378,6 +380,10 @@ def run_block(block, ctx):
         ctx.outcomes["%d-gen:%s" % (n, real[0])] += 1
         if len(ctx.samples) < 1 and blk and real[0] == "ok":
             ctx.sample({"programs": list(combo), "acls": block["acls"], "result": real[1]})
+
+
+def unordered_tree(t):
+    return sorted((r, unordered_tree(ch)) for r, ch in t)
 
 
 def walk(t):
